@@ -31,6 +31,40 @@ func TestVerifC15CompSets(t *testing.T) {
 	}
 	out.Case(true, fmt.Sprintf("timeouts|%d|%d|%d|%d", int64(srv.ReadTimeout/time.Second), int64(srv.ReadHeaderTimeout/time.Second),
 		int64(srv.WriteTimeout/time.Second), int64(srv.IdleTimeout/time.Second)))
+	// which Content-Encodings does httpContentDecompressor enable for a configured compression_algorithms list?  Every
+	// subset of the seven names, in the default order and reversed (order and presence of "zlib" must not matter for
+	// "deflate"): line dec|<name code>|<list codes, comma separated>|<0 absent, 1 usable decoder, 2 present but nil>
+	codeNames := []string{"", "gzip", "zstd", "zlib", "snappy", "deflate", "lz4"}
+	for mask := 0; mask < 1<<7; mask++ {
+		for rev := 0; rev < 2; rev++ {
+			var list []string
+			var codes []string
+			for i := 0; i < 7; i++ {
+				k := i
+				if rev == 1 {
+					k = 6 - i
+				}
+				if mask&(1<<k) != 0 {
+					list = append(list, codeNames[k])
+					codes = append(codes, fmt.Sprint(k))
+				}
+			}
+			if list == nil {
+				list = []string{}
+			}
+			d := httpContentDecompressor(http.HandlerFunc(func(http.ResponseWriter, *http.Request) {}), 1<<20, nil, list, nil).(*decompressor)
+			for k, name := range codeNames {
+				state := 0
+				if f, ok := d.decoders[name]; ok {
+					state = 1
+					if f == nil {
+						state = 2
+					}
+				}
+				out.Case(true, fmt.Sprintf("dec|%d|%s|%d", k, joinComma(codes), state))
+			}
+		}
+	}
 	names := map[string]bool{}
 	for k := range availableDecoders {
 		names[k] = true
@@ -64,4 +98,15 @@ func TestVerifC15CompSets(t *testing.T) {
 		_, dec := availableDecoders[k]
 		out.Case(true, fmt.Sprintf("%s|%v|%v|%v", k, client, dec || k == "deflate", enabled[k]))
 	}
+}
+
+func joinComma(xs []string) string {
+	out := ""
+	for i, x := range xs {
+		if i > 0 {
+			out += ","
+		}
+		out += x
+	}
+	return out
 }
